@@ -3,6 +3,10 @@
 import json, os
 
 CHECKS = {
+ "C01": ("4.1", "The full statement (every program of the conforming grammar gets only Notices) needs every rule ported and is NOT proved. Proved fragments: verdict and exit plumbing (all-Notice files are OK, exit 0), the 42 header (C13.accept), integer constants (C11.int_valid), the 80-column limit (no token of a file whose lines are <= 80 columns starts beyond column 81, so CheckLineLen is silent). Everything else is decided per generated program by the acceptance oracle on the real pipeline (partial)",
+         "Lean 4 proof of the modelled clauses + acceptance oracle over grammar-generated programs"),
+ "C02": ("4.2", "The full statement (every catalogue operator at every site yields its code on the edited line) is NOT proved. Proved fragments: the modelled rules emit their code when handed the pattern (line length, header, include guard, the four counters) and one Error-level diagnostic makes the file Error! with non-zero exit. The segmentation hypothesis and all other rules are decided per (program, operator, site) by the catalogue oracle on the real pipeline (partial)",
+         "Lean 4 proof of the modelled clauses + violation-catalogue oracle (90 edit operators)"),
  "C03": ("4.3", "Lean theorems: CheckLineLen reports a line iff some token of the statement on it starts beyond column 81, each line at most once; the NEWLINE token ending a line of visual width w (tab stops 4) is at column w+1 whatever precedes the line, hence a code line ending in a newline is reported iff w > 80; CheckLineLen runs after every matched primary; `//` and block-comment lines are reported iff their width exceeds 80 (first/interior/last line); the four counters are compared exactly at 25/5/4/5. That the counters equal the measured quantities is maintained by unported rules and decided by the boundary oracle at L-3..L+6 in generated contexts (partial)",
          "Lean 4 proof (membership characterisation of the line-length scan + position spec) + rule-snapshot correspondence + boundary oracle"),
  "C04": ("4.4", "Lean theorems about cliRun (tail of main): one verdict per file in order, OK iff no Error-level diagnostic, exit 0 iff every file OK for every list of files (any length/order/repetition), first fatal file named with non-zero exit, empty run exits 0; tied to __main__.py by a byte-exact correspondence of stdout and exit status on the real main()",
